@@ -765,6 +765,10 @@ class Symex:
         if isinstance(t, tuple) and t[0] == 'or' and not pol:
             q = self.assume(p, Val(t[1]), False)
             return self.assume(q, Val(t[2]), False) if q is not None else None
+        if isinstance(t, tuple) and t[0] == 'cmp' and t[1] == '!=':
+            t, pol = ('cmp', '==', t[2], t[3]), not pol
+        if (t, not pol) in p.guards:
+            return None
         p.guards.append((t, pol))
         if isinstance(t, tuple) and t[0] == 'cmp':
             op, a, b = t[1], t[2], t[3]
@@ -1521,6 +1525,18 @@ class Symex:
                 for q, (a, b) in self.eval_args(e['args'], p, ctx):
                     res.append((q, self._cmp(e['op'], Val(a.term), Val(b.term))))
                 return res
+        # --- assignment to a std::string object: a plain write of the new value
+        if short == 'operator=' and obj is not None and len(e['args']) == 1 and \
+                (obj.get('cty') or '').replace('const ', '').startswith(('std::basic_string', 'std::__cxx11::basic_string')):
+            res = []
+            for q, (v,) in self.eval_args(e['args'], p, ctx):
+                for q2, lp in self.eval_lvalue(obj, q, ctx):
+                    if lp is None:
+                        q2.effects.append(('unknown', 'assignment to ' + show(obj), tuple(e.get('loc', ()))))
+                    else:
+                        self.write_lp(q2, lp, v, e, ctx)
+                    res.append((q2, v))
+            return res
         # --- methods of the analysed record, inlined
         if e.get('callee_in_repo') and ctx['depth'] < self.MAX_DEPTH and callee not in self.no_inline:
             cands = [c for c in self.facts.by_sig.get(e.get('callee_sig'), []) if c['tmpl'] in ('none', 'inst')]
@@ -1557,8 +1573,9 @@ class Symex:
             q.effects.append(('call', callee or show(e), tuple(a.term for a in args), olp, q.loopctx,
                               tuple(e.get('loc', ())), bool(e.get('callee_in_repo')),
                               bool(e.get('method_const'))))
+            rng = getattr(self, 'extern_ranges', {}).get(callee) or type_range(e.get('cty'))
             res.append((q, Val(('callret', callee or show(e), tuple(a.term for a in args),
-                                tuple(e.get('loc', ()))), type_range(e.get('cty')))))
+                                tuple(e.get('loc', ()))), rng)))
         return res
 
     def call_vector(self, e, p, ctx, short):
